@@ -644,7 +644,7 @@ Inductive instr := ILock | IUnlock | IWork.
 
 Definition lockprog := list instr.
 
-Record msys := mkM { mu : option nat; progs : list lockprog }.
+Record msys := mkM { mtx : option nat; progs : list lockprog }.
 
 Fixpoint set_nth {A} (l : list A) (i : nat) (x : A) : list A :=
   match l, i with
@@ -656,15 +656,15 @@ Fixpoint set_nth {A} (l : list A) (i : nat) (x : A) : list A :=
 (* thread t executes its next instruction *)
 Definition mstep (s : msys) (t : nat) : option msys :=
   match nth_error (progs s) t with
-  | Some (ILock :: r) => match mu s with
+  | Some (ILock :: r) => match mtx s with
                          | None => Some (mkM (Some t) (set_nth (progs s) t r))
                          | Some _ => None                       (* waits -- also when it is the holder itself *)
                          end
-  | Some (IUnlock :: r) => match mu s with
+  | Some (IUnlock :: r) => match mtx s with
                            | Some h => if h =? t then Some (mkM None (set_nth (progs s) t r)) else None
                            | None => None
                            end
-  | Some (IWork :: r) => Some (mkM (mu s) (set_nth (progs s) t r))
+  | Some (IWork :: r) => Some (mkM (mtx s) (set_nth (progs s) t r))
   | _ => None
   end.
 
